@@ -269,9 +269,12 @@ int __CPROVER_uninterpreted_vstr_casecmp(const char *a, const char *b);
 int __CPROVER_uninterpreted_vstr_ncmp(const char *a, const char *b, size_t n);
 int __CPROVER_uninterpreted_vstr_ncasecmp(const char *a, const char *b, size_t n);
 #define VSTR_SGN(x) (((x) > 0) - ((x) < 0))
+/* ... and what the empty text compares like: "" equals only "" and is below every other text */
 #define VSTR_CMP_AXIOMS(F, a, b, ...) do { \
         __CPROVER_assume((a) != (b) || F((a), (b) __VA_ARGS__) == 0); \
-        __CPROVER_assume(VSTR_SGN(F((a), (b) __VA_ARGS__)) == -VSTR_SGN(F((b), (a) __VA_ARGS__))); } while (0)
+        __CPROVER_assume(VSTR_SGN(F((a), (b) __VA_ARGS__)) == -VSTR_SGN(F((b), (a) __VA_ARGS__))); \
+        __CPROVER_assume((a)[0] != 0 || VSTR_SGN(F((a), (b) __VA_ARGS__)) == ((b)[0] == 0 ? 0 : -1)); \
+        __CPROVER_assume((b)[0] != 0 || VSTR_SGN(F((a), (b) __VA_ARGS__)) == ((a)[0] == 0 ? 0 : 1)); } while (0)
 int strcmp(const char *a, const char *b)
 {
     __CPROVER_assert(a != NULL && b != NULL, "strcmp: arguments not NULL");
@@ -384,8 +387,9 @@ char *fgets(char *buf, int n, FILE *fp)
  * Returns -1 with errno set (EINTR, EAGAIN, EIO, EBADF; nothing is promised about the buffer), 0 at end of
  * file, or a count 1..n of bytes stored at the start of buf (short reads allowed).  errno is left alone on
  * success.  A unit can steer the FIRST call through vg_read_first (0 free, 1 data, 2 end of file, 3 EINTR);
- * later calls are free.  vg_read_calls counts calls, vg_read_total the bytes delivered. */
-size_t vg_read_calls, vg_read_total;
+ * later calls are free, except that after vg_read_limit calls (a ghost the bounded units fix) only "end of
+ * file" is reported.  vg_read_calls counts calls, vg_read_total the bytes delivered. */
+size_t vg_read_calls, vg_read_total, vg_read_limit;     /* after vg_read_limit calls the descriptor is at end of file */
 int vg_read_first;
 /* errno is `*__errno_location()`; contracts cannot name a call in an assigns clause, so the location is a ghost */
 int vg_errno;
@@ -394,7 +398,7 @@ ssize_t read(int fd, void *buf, size_t n)
 {
     __CPROVER_assert(n == 0 || (buf != NULL && __CPROVER_w_ok(buf, n)), "read: destination has n writable bytes");
     __CPROVER_assume(n == 0 || (buf != NULL && __CPROVER_w_ok(buf, n)));          /* failure above is reported */
-    int mode = (vg_read_calls == 0) ? vg_read_first : 0;
+    int mode = (vg_read_calls == 0) ? vg_read_first : ((vg_read_calls >= vg_read_limit) ? 2 : 0);
     vg_read_calls++;
     _Bool fail = nondet_bool();
     size_t got = nondet_size_t();
